@@ -188,6 +188,22 @@ def item_fn(case, base):
     return base
 
 
+def data_patterns(case, base):
+    """What the source hands out must not matter for how much of it a stage reads: every stage is run on its
+    ordinary items, on a lead-in of zeros (silence) and on a constant signal."""
+    if case["cls"] in ("sel", "twhile", "dwhile"):
+        return [("pattern", item_fn(case, base))]
+    try:
+        zero = base(1) * 0
+        probe = base(1)
+    except Exception:
+        return [("items", base)]
+    if not isinstance(probe, (int, float)):
+        return [("items", base)]
+    return [("items", base), ("silence-then-items", lambda i: zero if i <= 4 else base(i)),
+            ("constant", lambda i: base(1))]
+
+
 def applicable(case, only):
     if only is None:
         return True
@@ -256,23 +272,24 @@ def m2(ctx, al, cat):
         for name, build, base_item, only in cat.get(case["cls"], []):
             if not applicable(case, only):
                 continue
-            reads, budget = run_stage(al, build, case, item_fn(case, base_item), maxk)
-            n += 1
-            used.add(name)
-            ctx.count(1, nontrivial_key=(name, key) if len(reads) >= 3 else None)
-            if n % 1500 == 0:
-                ctx.sample({"stage": name, "case": key, "reads_after_each_output": reads})
-            if budget:
-                ctx.violation("C02:no-finite-time:%s" % name, {"stage": name, "case": key, "reads": reads})
-                continue
-            if reads and reads[0] != 0:
-                ctx.violation("C02:read-at-construction:%s" % name, {"stage": name, "case": key, "read": reads[0]})
-            for k in range(1, len(reads)):
-                b = bound[key].get(k, L)
-                if reads[k] > min(b, L):
-                    ctx.violation("C02:over-read:%s" % name, {"stage": name, "case": key, "outputs": k,
-                                                              "read": reads[k], "need": b, "reads": reads})
-                    break
+            for pat_name, item in data_patterns(case, base_item):
+              reads, budget = run_stage(al, build, case, item, maxk)
+              n += 1
+              used.add(name)
+              ctx.count(1, nontrivial_key=(name, key, pat_name) if len(reads) >= 3 else None)
+              if n % 1500 == 0:
+                  ctx.sample({"stage": name, "case": key, "reads_after_each_output": reads})
+              if budget:
+                  ctx.violation("C02:no-finite-time:%s" % name, {"stage": name, "case": key, "reads": reads})
+                  continue
+              if reads and reads[0] != 0:
+                  ctx.violation("C02:read-at-construction:%s" % name, {"stage": name, "case": key, "read": reads[0]})
+              for k in range(1, len(reads)):
+                  b = bound[key].get(k, L)
+                  if reads[k] > min(b, L):
+                      ctx.violation("C02:over-read:%s" % name, {"stage": name, "case": key, "outputs": k,
+                                                                "read": reads[k], "need": b, "reads": reads})
+                      break
     ctx.traces += n
     ctx.log("M2: %d real stage runs over %d spec cases, %d distinct constructors" % (n, len(cases), len(used)))
     ctx.extra["constructors_covered"] = sorted(used)
